@@ -5,13 +5,13 @@ id=$1; pkg=$2; shift 2
 W=/tmp/seed/$id; O=/tmp/seed/$id-out
 export CARGO_NET_OFFLINE=true CARGO_TARGET_DIR=$W/target
 cd $W || exit 2
-git checkout -q -- . ; git clean -fdq -e target
+git reset -q --hard HEAD; git clean -fdq -e target
 git apply $O/demo.diff || { echo "demo.diff does not apply on original"; exit 2; }
 echo "== [1] original + demo (expect PASS)"; cargo test --offline -p $pkg "$@" 2>&1 | grep -E "^test result|FAILED|panicked|error(\[|:)" | head -8
 git apply $O/patch.diff || { echo "patch.diff does not apply"; exit 2; }
 echo "== [2] patched + demo (expect FAIL)"; cargo test --offline -p $pkg "$@" 2>&1 | grep -E "^test result|FAILED|panicked|error(\[|:)" | head -8
-git checkout -q -- . ; git clean -fdq -e target
+git reset -q --hard HEAD; git clean -fdq -e target
 git apply $O/patch.diff
 echo "== [3] patched, existing tests (expect PASS)"; cargo test --offline -p $pkg -- --test-threads 4 2>&1 | grep -E "^test result|FAILED|failed|error(\[|:)" | head -20
-git checkout -q -- . ; git clean -fdq -e target
+git reset -q --hard HEAD; git clean -fdq -e target
 echo "== done $id"
